@@ -28,7 +28,7 @@ open SSV SSV.Gen.C05
 
 inductive Err
   | tooBig | tooSmall | incomplete | typeMismatch | badTimestamp | csidMismatch
-  | addr | frag | source | aeadOpen | userNotFound | resolve
+  | addr | frag | source | aeadOpen | userNotFound | resolve | tooManySessions | replay
 deriving DecidableEq, Repr
 
 inductive Outcome (α : Type)
